@@ -179,8 +179,11 @@ func sameParams(a, b map[string]string) bool {
 
 // recOf returns the recorder of the request a handler is serving.
 func recOf(c *rux.Context) *Rec {
-	if r, ok := c.RawWriter().(*Rec); ok {
+	switch r := c.RawWriter().(type) {
+	case *Rec:
 		return r
+	case RecRF:
+		return r.Rec
 	}
 	return nil
 }
@@ -219,4 +222,18 @@ func Serve(h http.Handler, req *http.Request) (rec *Rec, pv any, panicked bool) 
 	rec = NewRec()
 	pv, panicked = catch(func() { h.ServeHTTP(rec, req) })
 	return
+}
+
+// RecRF is a recorder whose underlying writer also implements io.ReaderFrom, like
+// the real net/http response does. Whatever arrives through ReadFrom is logged as
+// body bytes exactly like a Write.
+type RecRF struct{ *Rec }
+
+func (r RecRF) ReadFrom(src io.Reader) (int64, error) {
+	b, err := io.ReadAll(src)
+	if len(b) > 0 || err == nil {
+		r.Rec.Body.Write(b)
+		r.Rec.Calls = append(r.Rec.Calls, Call{Kind: "W", N: len(b), Ask: len(b)})
+	}
+	return int64(len(b)), err
 }
